@@ -27,6 +27,8 @@ def num_producers(x):
     out = [('literal', str(x), None), ('sum', '(%d + %d)' % (x - 1, 1), None), ('bitand', '(%d & %d)' % (x, x), None), ('bitor', '(%d | 0)' % x, None),
            ('round', '%s(%d.2)' % (ROUND, x), None), ('abs', '%s(0 - %d)' % (ABS, x), None), ('element', '[%d][0]' % x, None), ('property', '({k: %d}).k' % x, None),
            ('funresult', 'idf(%d)' % x, None), ('shift', '(%d << 0)' % x, None), ('product', '(%d * 1)' % x, None)]
+    if x == 0:
+        out += [('shiftout', '(1 << 64)', None), ('shiftout2', '(5 << 100)', None), ('shr', '(1 >> 70)', None), ('mod', '(4 % 2)', None)]
     if x <= 12:
         out.append(('len', '%s([%s])' % (LEN, ', '.join(['0'] * x)), None))
     return out
@@ -53,7 +55,7 @@ def run(env, tier, seed, broken=None):
     cases = corpus_cases('C16')
     groups = []
     n = 0
-    strings = ['abc', '', '5', '১০', '1e3', 'k', 'ab', ' 5', 'অ', '0', '-2', 'true']
+    strings = ['abc', '', '5', '১০', '1e3', 'k', 'ab', ' 5', 'অ', '0', '-2', 'true', '\ufeff42', '\ufeff', 'a\u0301']
     numbers = [3, 0, 1, 255, 1000000, 2 ** 40, 7, 12, 999999, 10 ** 7]
     for s in strings:
         prods = str_producers(s)
